@@ -142,6 +142,21 @@ def run(tier, seed):
     impl = run_engine(runner, lines)
     model = run_engine(driver_path(), lines) if lean["build_ok"] else {}
     standard_compare(res, cases, impl, model)
+    # the BLAKE2b buffering families once more on the SIMD build (its `update` is separate code): same answers as the stable build
+    sl = [(c, l) for c, l in zip(cases, lines) if "/buffer-window" in c.cls or c.cls.startswith(("generichash_obj/", "generichash/empty-key"))
+          or (c.line.startswith("generichash") and c.cls.endswith(("/boundary", "/3-way")))]
+    if sl:
+        simd = run_engine(build_runner("simd"), [l for _, l in sl])
+        nd = 0
+        for c, _ in sl:
+            a, b = impl.get(c.id, ["missing"])[0], simd.get(c.id, ["missing"])[0]
+            res.evaluations += 1
+            res.count("build=simd/" + c.cls)
+            if a != b and "n/a" not in (a, b):
+                nd += 1
+                if nd <= 20:
+                    res.violations.append({"kind": "impl(simd)!=impl(stable)", "line": c.line, "answers": {"impl(stable build)": a, "impl(simd build)": b},
+                                           "why": "the SIMD BLAKE2b backend answers differently from the software backend for this chunking"})
     res.extra["exhaustive_splits"] = "every 2-way split of every length 0..=L2 and every 3-way split of every length 0..=L3 per primitive"
     if tier == "thorough" and lean["build_ok"]:
         okc, out = leanchecker("C08")
